@@ -75,14 +75,15 @@ retry_sem_wait:
 		}
 
 		(void)qb_thread_lock(logt_wthread_lock);
-		if (wthread_should_exit) {
-			int value = -1;
-
-			(void)sem_getvalue(&logt_print_finished, &value);
-			if (value == 0) {
-				(void)qb_thread_unlock(logt_wthread_lock);
-				pthread_exit(NULL);
-			}
+		if (wthread_should_exit &&
+		    qb_list_empty(&logt_print_finished_records)) {
+			/*
+			 * Nothing queued any more. (The semaphore's value is
+			 * no guide here: the token that goes with the request
+			 * to exit may not have been posted yet.)
+			 */
+			(void)qb_thread_unlock(logt_wthread_lock);
+			pthread_exit(NULL);
 		}
 
 		rec =
